@@ -3,6 +3,7 @@ import IbicusModel.Props.Calendar
 import IbicusModel.Props.CalendarAgree
 import IbicusModel.Lemmas.GenLoops
 import IbicusModel.Lemmas.GenCalendarFns
+import IbicusModel.Props.Capstone2
 -- property theorems
 #print axioms Props.C07.postInit_ok
 #print axioms Props.C07.postInit_error_iff
@@ -91,3 +92,30 @@ import IbicusModel.Lemmas.GenCalendarFns
 #print axioms Lemmas.GenCalendarFns.yearlyMeans_denote
 #print axioms Lemmas.GenCalendarFns.yearsAndYearlyMeans_denote
 #print axioms Lemmas.GenCalendarFns.uniqueMask_denote
+-- capstone 2 (BEGIN): the property on the composition of the regenerated pieces (`Props/Capstone2.lean`)
+#print axioms Props.Capstone2.runLoop_writes
+#print axioms Props.Capstone2.regen_loopRW_writes
+#print axioms Props.Capstone2.regen_loopIsimipRW_writes
+#print axioms Props.Capstone2.regen_loopDC_writes
+#print axioms Props.Capstone2.regen_loopRW_assigned_once
+#print axioms Props.Capstone2.regen_loopIsimipRW_assigned_once
+#print axioms Props.Capstone2.regen_loopDC_assigned_once
+#print axioms Props.Capstone2.regen_loopIsimipMonths_all_assigned
+#print axioms Props.Capstone2.regen_loopCDFt_all_assigned
+#print axioms Props.Capstone2.regen_loopQDM_all_assigned
+#print axioms Props.Capstone2.regenApplyLocation_LS_assigned_once
+#print axioms Props.Capstone2.regenApplyLocation_DC_assigned_once
+#print axioms Props.Capstone2.regenApplyLocation_CDFt_assigned_once
+#print axioms Props.Capstone2.regenApplyLocation_CDFt_years_assigned_once
+#print axioms Props.Capstone2.regenApplyLocation_QDM_assigned_once
+#print axioms Props.Capstone2.regenApplyLocation_QDM_years_assigned_once
+#print axioms Props.Capstone2.regenApplyLocation_QM_assigned_once
+#print axioms Props.Capstone2.regenApplyLocation_ECDFM_assigned_once
+#print axioms Props.Capstone2.regenApplyLocation_SDM_assigned_once
+#print axioms Props.Capstone2.allAssigned_of_AllAssigned
+#print axioms Props.Capstone2.regen_yearsWin_cdft_assigned
+#print axioms Props.Capstone2.regen_yearsWin_qdm_assigned
+#print axioms Props.Capstone2.step8Buffer_all_assigned
+#print axioms Props.Capstone2.regenApplyLocation_ISIMIP_assigned_once
+#print axioms Props.Capstone2.regenApplyLocation_ISIMIP_months_all_assigned
+-- capstone 2 (END)
